@@ -238,3 +238,27 @@ func VerifC09_OverQuotaTwoQueues() {
 	}
 	vr.Cover(a.FairShare > 0 && b.FairShare > 0 && left == 0, "C09.cover.both-queues-get-surplus")
 }
+
+// VerifC09_WeightTotalCountsTheCompetingQueues: the weight total that normalises over-quota weights
+// (getTotalWeightsForUnsatisfied) is the sum of the weights of exactly the queues the rounds still
+// serve - those that are not satisfied (isQueueSatisfied honours the limit): a queue sitting at its
+// limit must not dilute the others' normalised weights.
+// BOUND: 1..3 queues; deserved, limit (-1 = none), request, fair share integers < 2^20; weights integers in [0, 2^8)
+func VerifC09_WeightTotalCountsTheCompetingQueues() {
+	res := rs.GpuResource
+	n := vr.Choose("queues", 3) + 1
+	queues := map[common_info.QueueID]*rs.QueueAttributes{}
+	want := 0.0
+	for i := 0; i < n; i++ {
+		q := c09Queue("q"+string(rune('0'+i)), res)
+		s := q.ResourceShare(res)
+		s.FairShare = vr.AnyFloatNat(q.Name+".fairShare", c09Bits)
+		s.OverQuotaWeight = vr.AnyFloatNat(q.Name+".weight", 8)
+		queues[q.UID] = q
+		if !isQueueSatisfied(q, res) {
+			want += s.OverQuotaWeight
+		}
+		vr.Assert(isQueueSatisfied(q, res) == !(c09Capped(s) > s.FairShare), "C09.satisfied-iff-capped-request-reached")
+	}
+	vr.Assert(getTotalWeightsForUnsatisfied(queues, res) == want, "C09.weight-total-is-the-sum-over-unsatisfied-queues")
+}
